@@ -1,6 +1,7 @@
 import Slock.Proofs.ReplRun
 import Slock.Proofs.ReplSync
 import Slock.Proofs.ReplConv
+import Slock.Proofs.ReplBatch
 /-!
 # C09 — followers apply the leader's log exactly and converge
 
@@ -234,6 +235,34 @@ example : (sstep (srun (Sync.init 256 256) (tour.take 2)) (.connect 1)).2 = .ful
 -- a guarded `cut` in the file phase (after the first file record) and a guarded `deliver` of a cursor without position
 example : SGuarded (Sync.init 256 256) [.append 0, .append 0, .append 0, .connect 1, .start 1, .deliver 1, .cut 1, .connect 1] ∧
     SGuarded (Sync.init 256 256) [.connect 1, .start 1, .append 0, .deliver 1, .deliver 1, .deliver 1] := by decide
+
+/-! ### the sender's 4 KB batch buffer (`SendProcess`) keeps the order
+
+`deliver` above hands the follower one record per step; the real `SendProcess` copies small records into a 4096-byte buffer and
+writes records larger than the buffer directly to the socket. `Batch` / `sendRec` (Model/Repl.lean) model exactly that block. -/
+
+/-- BATCH ORDER: for every sequence of records (any sizes, with or without data), what reaches the socket — after the flush that
+`Pop` = EOF triggers — is the records in the order they were popped; with the code's rule "flush first if the record does not
+fit" (`windex + 64 + len(data) > 4096`). Together with `C09_no_gap_partial` (pop order = push order): the byte stream delivered
+to the follower is the leader's records in log order. -/
+theorem C09_batch_order (rs : List (Nat × Nat)) : (sendAll codeRule Batch.empty rs).flush.wire = rs.map (·.1) := by
+  have h := (sendAll_code Batch.empty rs (by decide)).1
+  have e : (sendAll codeRule Batch.empty rs).flush.wire = (sendAll codeRule Batch.empty rs).all := by simp [Batch.flush, Batch.all]
+  rw [e, h]; simp [Batch.all, Batch.empty]
+
+/-- the buffer index never exceeds 4032 between records, so a 64-byte header always fits -/
+theorem C09_batch_bound (rs : List (Nat × Nat)) : (sendAll codeRule Batch.empty rs).windex ≤ 4032 :=
+  (sendAll_code Batch.empty rs (by decide)).2
+
+/-- the rule is needed: if a record larger than the buffer is exempted from the flush (`… && len(data) <= 4032`, seeded change
+C09c), it is written before the small records still waiting in the buffer: SET small, SET small, SET 6000 bytes reaches the
+follower as 3, 1, 2. -/
+def exemptLargeRule (windex d : Nat) : Bool := decide (windex + 64 + d > 4096 ∧ d ≤ 4032)
+
+theorem C09_batch_order_needs_flush :
+    (sendAll exemptLargeRule Batch.empty [(1, 13), (2, 13), (3, 6006)]).flush.wire = [3, 1, 2] := by decide
+
+example : (sendAll codeRule Batch.empty [(1, 13), (2, 13), (3, 6006), (4, 0), (5, 3878)]).flush.wire = [1, 2, 3, 4, 5] := by decide
 
 /-! ### per-step statements (kept; the induction above supersedes them) -/
 
